@@ -43,7 +43,9 @@ def rule_1(ctx):
     reg = ctx.a.registry
     for f in reg:
         refs = f.decorators
-        reg_first = refs and refs[0] == 'pkg:xlfunctions.xl:register'
+        reg_first = getattr(f, 'reg_first', None)
+        if reg_first is None:
+            reg_first = refs and refs[0] == 'pkg:xlfunctions.xl:register'
         if f.name in UNVALIDATED_OK:
             no_params = not f.params
             inspector = f.name.startswith('IS')
